@@ -10,6 +10,7 @@ mod c_flow;
 mod c_isa;
 mod c_mach;
 mod c_run;
+mod c_tui;
 mod gen;
 mod out;
 mod rng;
@@ -47,6 +48,7 @@ fn main() {
         "c11" => c_mach::run_c11(&mut out, seed, thorough),
         "c13" => c_mach::run_c13(&mut out, seed, thorough),
         "c12" => c_run::run_c12(&mut out, seed, thorough),
+        "c17" => c_tui::run_c17(&mut out, seed, thorough),
         "replay" => gen::replay(&mut out, &extra),
         _ => {
             eprintln!("unknown command {}", cmd);
